@@ -342,7 +342,11 @@ def optimizer_oracle(case, net):
         t2 = ropt._reconstruct_tree(inputs, output, sd, con)
         if t2.get_ssa_path() != rtree.get_ssa_path() and t2.total_flops() != rtree.total_flops():
             bad.append(({"site": "ReusableRandomGreedyOptimizer", "class": "stored-path"}, None))
-        classify("ReusableRandomGreedyOptimizer.score", con["score"], t2)
+        # since /repo 00c7e4b every reusable optimizer stores the tree's score under its own
+        # objective (tree.get_score(minimize)); before that commit the random-greedy one stored
+        # log10(flops). Either is "the cost of the tree built from the stored path".
+        if abs(con["score"] - t2.get_score(ropt.minimize)) > 1e-9:
+            classify("ReusableRandomGreedyOptimizer.score", con["score"], t2)
 
     hopt = ctg.ReusableHyperOptimizer(methods=["greedy"], max_repeats=3, minimize=case.get("minimize", "flops"),
                                       parallel=False, progbar=False, directory=None,
